@@ -26,9 +26,14 @@ PIPELINES = {
     "csv": (["-o", "csv", "--select", ".=v", "--select", "(number? .)=n"], True),
 }
 POLICIES = ("ignore", "stdout", "stderr", "panic")
+# a value cut off by the end of the input: only ever the very last token of a stream
+TRUNCATED = [b'{"a":', b"[1,2", b'"abc', b"tru", b"nul", b"fals", b"-", b"[", b"{", b'{"a"', b'"x\\', b"[1,", b'{"a":1,', b'"\\u12',
+             b'[[1],{"k":[', b'{"a":{"b":"c"', b"[true,fal"]
 
 
 def gclass(b):
+    if b in START_BYTES:
+        return "truncated-value"
     if b in b"}]":
         return "closer"
     if b in b",:":
@@ -60,6 +65,8 @@ def gen_unit(rng):
     for _ in range(rng.choice((0, 1, 1, 2, 3))):
         g = rng.randrange(nvalues + 1)
         gaps[g] = [gen_token(rng) for _ in range(rng.randint(1, 5))]
+    if rng.random() < 0.2:
+        gaps[nvalues] = gaps[nvalues] + [rng.choice(TRUNCATED)]
     return {"values": vals, "gaps": gaps, "pipeline": rng.choice(list(PIPELINES)),
             "wsseed": rng.getrandbits(32)}
 
@@ -71,6 +78,7 @@ def build(unit, with_noise=True, only_gap=None, upto_value=None):
     out = []
     pos = 0
     first = None
+    trunc_first = False
     vals = unit["values"]
     n = len(vals) if upto_value is None else upto_value
     for i in range(n + 1):
@@ -80,15 +88,24 @@ def build(unit, with_noise=True, only_gap=None, upto_value=None):
             out.append(w)
             pos += len(w)
             if first is None:
-                first = pos
+                # a truncated value becomes malformed only where the input ends
+                first = pos if t not in TRUNCATED else None
+                if first is None:
+                    trunc_first = True
             out.append(t)
             pos += len(t)
         w = r.choice((b" ", b"\n", b"\t ", b"\n\n"))
+        if toks and toks[-1] in TRUNCATED:
+            # no line break directly after a cut-off value: jawk quotes the offending character in its message, and a
+            # message holding a raw LF could not be framed as one error: line (an assumption of this oracle, see run())
+            w = r.choice((b" ", b"", b"\t"))
         out.append(w)
         pos += len(w)
         if i < n:
             out.append(vals[i])
             pos += len(vals[i])
+    if trunc_first and first is None:
+        first = pos
     return b"".join(out), first
 
 
